@@ -2,8 +2,8 @@
 MODULES=['bits_reg']
 
 def rtl_specs():
-  from . import rtl_arb, rtl_queues
-  return list(rtl_arb.SPECS)+list(rtl_queues.SPECS)
+  from . import rtl_arb, rtl_queues, rtl_cksum
+  return list(rtl_arb.SPECS)+list(rtl_queues.SPECS)+list(rtl_cksum.SPECS)
 def rtl_spec(key):
   for sp in rtl_specs():
     if sp.key==key: return sp
@@ -39,4 +39,9 @@ PROPERTIES={
    note="Not covered: cycle-level queues (cl_queues.py: method scheduling is outside rtlvc), enrdy_queues.py, valrdy_queues.py (the latter does not import at the pinned commit). Capacity and width enumerated; contents symbolic (data independence is not assumed). Trusted: scheduler/tick composition (C01/C07), AstHelper, rtlvc.",
    extra=['contracts:rtl_extra'], require_cover=False,
    assumptions=["enq/deq interface users respect the protocol (en only when rdy) for the EnqIfc/DeqIfc flavour; stream flavour: no assumption"]),
+ 'C20': dict(level='proof', engine='rtlvc',
+   claim="Checksum half only. Proof for all 2^128 inputs and all histories that ChecksumRTL sends exactly the Fletcher checksum (sum1/sum2 recurrences mod 2^16, as in the statement) of the message it buffered, sends exactly when a message is buffered and the receiver is ready, buffers accepted inputs unchanged and in order (1-entry pipe queue); and that the FL function checksum() and utils.b128_to_words/words_to_b128 meet the same specification (pyvc, words symbolic). Hence FL == RTL == spec for every input. The TinyRV0 processor half of C20 is NOT covered.",
+   note="Not covered: ProcFL/ProcCL/ProcRTL against the ISA (a pipelined-processor refinement proof over greenlet-based FL code is out of reach of this tool set, DESIGN.md section 6 C20); ChecksumCL's method-level scheduling (its block calls the FL function, which is under contract). Trusted: as C17/C19.",
+   extra=['contracts:rtl_extra'], require_cover=False,
+   assumptions=["the sender respects recv.rdy (en only when rdy)"]),
 }
